@@ -11,7 +11,7 @@ import qstrader.statistics.performance as perf
 
 RET = z3.Function('OBSERVATION', z3.IntSort(), R)          # the series of (cumulative) returns
 RUNMAX = z3.Function('RUNNING_MAXIMUM', z3.IntSort(), R)   # ghost: max of observations 0..j, INCLUDING the first
-LOOP = 'create_drawdowns#for range(1, len(idx))#0'
+LOOP = 'create_drawdowns#for range(1, len(_))#0'
 
 
 def runmax_def(j):
